@@ -4,7 +4,9 @@ replay operators over run-time generated time-series schemas.
 Case lines
   1 mode start end [rstart rend]   mode 0: capture/apply probe, run [start,end)
                                    mode 1: dense record run [start,end), then replay run [rstart,rend)
-                                   mode 2: the same through the sparse :memory: recording (recordable_id)
+                                   mode 2: the same through the sparse :memory: recording (recordable_id),
+                                           plus the RECOVER seed as of every cycle
+  1 3 start end rstart rend split  mode 3: sparse recording continued over two runs [start,split) [split,end)
   2 <schema>                       1=TS<int> 2=SIGNAL 3=TSS<int> 4 e=TSD<int,e> 5 n e=TSL<e,n>
                                    6 k f1..fk=TSB 7 p m=TSW<int,p,m>
   3 t np p1..pn op arg             one mutation at time t through a path (TSD key / TSL,TSB index)
@@ -17,7 +19,8 @@ Observation lines (second run of mode 1: code + 100)
   25 t obs <delta> delta captured again from the copy (only if the copy ticked)
   24 t eq cmod deq Value::equals(source.value, copy.value); copy modified; delta.equals(delta2) (-1: none)
   30 i <delta|0>   entry i of the buffer written by the real record node (0 = hole); 130: second run
-  31 i t <delta>   entry i of the sparse recording (time t); 131: second run
+  31 i t <delta>   entry i of the sparse recording (time t); 131: replay run; 35: after the continuing run
+  33 T rv fv eq    RECOVER seed as of T: valid, source valid at T, Value::equals(seed, source value at T)
   28 0             end;  18 1 rejected case;  19 1 exception escaped;  29 t 1 exception in the probe
 """
 import random
@@ -38,8 +41,10 @@ K_VALUE = "roundtrip_value"
 K_DELTA = "roundtrip_delta"
 K_TICK = "roundtrip_tick"
 K_STREAM = "replay_stream"
+K_RECOVER = "recover_state"
+K_CONT = "continuation_lost"
 K_SHAPE = "malformed_output"
-PROP_KINDS = {"C20": {K_TSB, K_EMPTY, K_UNSET, K_VALUE, K_DELTA, K_TICK, K_STREAM, K_SHAPE}}
+PROP_KINDS = {"C20": {K_TSB, K_EMPTY, K_UNSET, K_VALUE, K_DELTA, K_TICK, K_STREAM, K_RECOVER, K_CONT, K_SHAPE}}
 
 
 # ---------------------------------------------------------------- shapes
@@ -132,6 +137,7 @@ def gen_shape(rng, depth, maxdepth):
 # ---------------------------------------------------------------- generator
 class Shadow:
     """What the generator believes exists (only used to aim the operations)."""
+    second = False
 
     def __init__(self, sh):
         self.sh = sh
@@ -286,7 +292,7 @@ def gen(rng, tier, prop):
     maxdepth = 3
     sh = gen_shape(rng, 1, maxdepth)
     r = rng.random()
-    mode = 0 if r < 0.5 else (1 if r < 0.75 else 2)
+    mode = 0 if r < 0.4 else (1 if r < 0.6 else (2 if r < 0.85 else 3))
     clean = rng.random() < 0.6
     start = 1 if rng.random() < 0.7 else rng.randint(2, 5)
     span = rng.randint(4, 12 if tier == "quick" else 20)
@@ -297,12 +303,21 @@ def gen(rng, tier, prop):
     sd = Shadow(sh)
     ops = []
     pushes = set()
+    split = None
+    if mode == 3:
+        # two recording runs [start,split) and [split,end) continuing one recording
+        if end - start < 2:
+            end = start + 2
+        split = rng.randint(start + 1, end - 1)
     for t in cycles:
+        if split is not None and t >= split and sd is not None and not getattr(sd, "second", False):
+            sd = Shadow(sh)               # the second run's source starts from fresh state
+            sd.second = True
         for _ in range(rng.choice([1, 1, 2, 2, 3, 4])):
             _gen_op(rng, sh, sd, [], t, ops, clean, pushes)
     if mode == 0:
         case = [[1, 0, start, end]]
-    elif mode == 2:
+    elif mode in (2, 3):
         # sparse absolute-time recording: the replay window may start after the first entry and end early
         r = rng.random()
         if r < 0.35:
@@ -310,7 +325,7 @@ def gen(rng, tier, prop):
         else:
             rstart = rng.randint(cycles[0], cycles[-1] + 1)
         rend = max(rstart + 1, rng.choice([end, end + 1, rng.randint(rstart + 1, end + 1)]))
-        case = [[1, 2, start, end, rstart, rend]]
+        case = [[1, 2, start, end, rstart, rend]] if mode == 2 else [[1, 3, start, end, rstart, rend, split]]
     else:
         rstart = 1 if rng.random() < 0.9 else rng.randint(2, 4)
         rend = rstart + (end - 1) + rng.choice([1, 1, 2, 0, -1 if end > 3 else 1])
@@ -359,6 +374,18 @@ def enumerate_cases(prop):
                 for (t, path, op, arg) in ops:
                     case.append([3, t, len(path)] + list(path) + [op, arg])
                 yield case
+    # RECOVER and continuation over dictionaries of composite elements: a key removed and re-created later
+    rec = [
+        ([TSD, TSS], [(1, [1], 3, 10), (1, [1], 3, 11), (2, [2], 3, 5), (3, [], 7, 1), (5, [1], 3, 12), (6, [2], 4, 5), (7, [], 7, 2), (8, [2], 3, 6)]),
+        ([TSD, TSB, 2, TS, TS], [(1, [1, 0], 1, 10), (1, [1, 1], 1, 11), (3, [], 7, 1), (4, [1, 0], 1, 12), (6, [1, 1], 1, 13), (7, [], 7, 1), (8, [1, 1], 1, 14)]),
+        ([TSD, TSD, TS], [(1, [1, 1], 1, 10), (2, [1, 2], 1, 11), (4, [], 7, 1), (5, [1, 3], 1, 12), (7, [1], 7, 3), (8, [1, 3], 1, 13)]),
+    ]
+    for toks, ops in rec:
+        body = [[2] + toks] + [[3, t, len(path)] + list(path) + [op, arg] for (t, path, op, arg) in ops]
+        yield [[1, 2, 1, 10, 1, 10]] + body
+        for split in range(2, 9):
+            for rs in (1, split, 9):
+                yield [[1, 3, 1, 10, rs, 10, split]] + body
 
 
 # ---------------------------------------------------------------- decoding of observations
@@ -650,13 +677,21 @@ def oracle(prop, case, impl_out):
     if any(l and l[0] in (19, 29, 129) for l in impl_out):
         fails.append((K_SHAPE, "exception escaped: %s" % [l for l in impl_out if l[0] in (19, 29, 129)][:2]))
     try:
-        if hdr[1] == 0:
+        probe_diverged_at = None
+        if True:
+            # every recording run carries the round-trip probe (modes 0-3)
             src, dl, cp, dl2, cmp_ = (_lines(impl_out, c) for c in (22, 21, 23, 25, 24))
             in_sync = True
+            split = hdr[6] if hdr[1] == 3 and len(hdr) >= 7 else None
+            resynced = False
             for t in sorted(src):
+                if split is not None and t >= split and not resynced:
+                    in_sync, resynced = True, True          # the second run starts from fresh state
                 # the statement is about a copy of the PRE-tick state: once the copy has diverged
                 # (reported at that tick) later ticks say nothing
                 if not in_sync:
+                    if split is not None and t < split:
+                        continue
                     break
                 a, _ = dec_state(sh, src[t], 0)
                 if not a["mod"] or t not in dl:
@@ -684,16 +719,32 @@ def oracle(prop, case, impl_out):
                 for kd in sorted(set(kinds)):
                     fails.append((kd, "t=%d eq=%d copy_modified=%d delta_eq=%d" % (t, eq, cmod, deq)))
                 in_sync = _content_equal(sh, a, b)
-        else:
+                if not in_sync and probe_diverged_at is None:
+                    probe_diverged_at = t
+        if hdr[1] != 0:
             rstart, rend = (hdr[4], hdr[5]) if len(hdr) >= 6 else (1, hdr[3])
             shift = rstart - 1
             src, dl = _lines(impl_out, 22), _lines(impl_out, 21)
             rsrc, rdl = _lines(impl_out, 122), _lines(impl_out, 121)
             buf, buf2 = _lines(impl_out, 30), _lines(impl_out, 130)
             if hdr[1] == 2:
+                # RECOVER: the seed as of T (fold of the recorded deltas up to T) is the source's state at T
+                for l in impl_out:
+                    if l and l[0] == 33 and not l[4]:
+                        if probe_diverged_at is None or probe_diverged_at > l[1]:
+                            fails.append((K_RECOVER, "recovered seed as of t=%d differs from the recorded stream's state (valid %d/%d)" % (l[1], l[2], l[3])))
+                            break
+            if hdr[1] == 3:
+                # continuation: the second run appends to the first run's recording
+                first = [l[2:] for l in impl_out if l and l[0] == 31]
+                final = [l[2:] for l in impl_out if l and l[0] == 35]
+                second = [[t] + dl[t][1:] for t in sorted(src) if t >= hdr[6]]
+                if final != first + second:
+                    fails.append((K_CONT, "recording after the second run is not first run (%d entries) ++ second run (%d ticks): %d entries" % (len(first), len(second), len(final))))
+            if hdr[1] >= 2:
                 # the sparse recording keeps absolute times: one (time, delta) entry per tick, in order;
                 # seen as a cycle-aligned buffer it obeys the same statements with no shift
-                sb = [l for l in impl_out if l and l[0] == 31]
+                sb = [l for l in impl_out if l and l[0] == (31 if hdr[1] == 2 else 35)]
                 sb2 = [l for l in impl_out if l and l[0] == 131]
                 times = [l[2] for l in sb]
                 if times != sorted(src) or [l[1] for l in sb] != list(range(len(sb))):
@@ -705,7 +756,7 @@ def oracle(prop, case, impl_out):
                 for l in sb2:
                     buf2[l[2] - 1] = l[3:]
                 shift = 0
-                if times and rstart > times[0]:
+                if (times and rstart > times[0]) or hdr[1] == 3:
                     # a replay window that starts after the first entry: the deltas are applied to an
                     # output without the earlier history, so only this much is demanded of it: it
                     # ticks in recorded cycles of the window only (an older entry is never applied)
@@ -882,6 +933,12 @@ def stats(case, impl_out):
                     add("ticks_with_removed_elems")
             except Exception:
                 pass
+        if l[0] == 33:
+            add("recover_queries")
+            if l[4]:
+                add("recover_exact")
+        if l[0] == 35:
+            add("continued_recording_entries")
         if l[0] == 30 and l[2:] == [0]:
             add("buffer_holes")
         if l[0] == 30 and l[2:] != [0]:
